@@ -1,7 +1,7 @@
 /-
   BB.Cli — `cli_main` (asm.py, def cli_main) after argparse, over the filesystem model of BB.Read,
   steps in the code's order AS IT IS NOW (fix cdc5c80 moved the `--hex-offset` parse before
-  assembling):
+  assembling; fix 9cf2d5e added the range check 4b):
 
     1. input file missing                      → SystemExit(message)      exit 1
     2. an -i directory that is no directory    → SystemExit(message)      exit 1
@@ -9,6 +9,7 @@
     3. --hex-offset given (non-empty string) and int(s, 0) fails → SystemExit   exit 1
     4. assemble(abspath(input), …) raises AssemblerError → SystemExit(e)  exit 1
        any other exception escapes as a traceback                          exit 1
+    4b. --hex-offset given and not 0 <= offset <= 2^32 - len(binary) → SystemExit   exit 1  (fix 9cf2d5e)
     5. -l FILE (non-empty): one line `name 0x%08x\n` per label, dict order
     6. -o FILE (default bb.out): the binary
     7. --hex-offset: bin2hex(output, output + '.hex', offset)
@@ -135,6 +136,12 @@ def writeOutputs (hexEncode : HexEnc) (fs : FS) (cwd : String) (a : Args) (offse
         | .ok h => (.code 0, FS.write fs2 (op ++ ".hex") h)
         | .error part => (.code 1, FS.write fs2 (op ++ ".hex") part)
 
+/-- `0 <= offset and offset + len(binary) <= 2**32` when a hex file is requested -/
+def offsetFits (offset : Option Int) (n : Nat) : Bool :=
+  match offset with
+  | none => true
+  | some off => decide (0 ≤ off) && decide (off + (n : Int) ≤ 4294967296)
+
 /-- steps 1-4: everything that happens before the first file is opened for writing.
     `.error status` = the run ends there; `.ok (offset, r)` = the parsed hex offset (if requested)
     and the assembled program -/
@@ -159,7 +166,9 @@ def plan (fs : FS) (cwd : String) (a : Args) : Except ExitStatus (Option Int × 
         match assembleText fs cwd dirs a.compress (.path inp) with
         | .error (.unsupported w) => .error (.unsupported w)
         | .error _ => .error (.code 1)
-        | .ok r => .ok (offset, r)
+        | .ok r =>
+          -- 4b. the image must fit the 32-bit address space of Intel HEX (fix 9cf2d5e)
+          if !offsetFits offset r.bytes.length then .error (.code 1) else .ok (offset, r)
 
 /-- `cli_main()` after `parser.parse_args()` -/
 def run (hexEncode : HexEnc) (fs : FS) (cwd : String) (a : Args) : ExitStatus × FS :=
